@@ -20,7 +20,7 @@ def src_desc(rng, geom='3d', shape=None, **kw):
          'xl': [rng.choice([1, 0, 100, -30, 2000]), rng.choice([1, 1, 3, -1, -7, 2])],
          'dt': rng.choice([4000, 2000, 1000, 500, 250, 125, 3000, 8000, 2300, 333, 1001, 1999]), 't0': rng.choice([0, 0, 0, 8, -12, 100, 1000, 50]),
          'fmt': rng.choice([1, 5]), 'ext': 0, 'cubeseed': rng.randrange(1 << 20),
-         'valkind': rng.choice(['smooth', 'smooth', 'smooth', 'noise', 'ramp', 'neg', 'const', 'zeros', 'huge', 'tiny', 'deadfirst', 'deadends']),
+         'valkind': rng.choice(['smooth', 'smooth', 'smooth', 'noise', 'ramp', 'neg', 'const', 'zeros', 'huge', 'tiny', 'deadfirst', 'deadends', 'deadborder']),
          'hdr': {'seed': rng.randrange(1 << 20), 'nfields': rng.randint(0, 6), 'inside': True}, 'sorting': 2}
     d.update(kw)
     return d
